@@ -817,7 +817,11 @@ class GraphBuilder(BuilderBase):
 
         count = self._node_count()
         node_name_prefix = self._qualify_node_name(f"{function.name}_node_{count}/")
-        nodes, outputs = _inliner.instantiate(graph, args, attr_map, prefix=node_name_prefix)
+        # Adapt inputs like ``call`` does: promote Python constants/tensors to ir.Value.
+        adapted_args = [self._input_to_ir_value(arg) for arg in args]
+        nodes, outputs = _inliner.instantiate(
+            graph, adapted_args, attr_map, prefix=node_name_prefix
+        )
 
         # Track final output values so we can rename them separately.
         # The inliner prefixes all names, which would prevent name-based lookup
